@@ -364,4 +364,23 @@ theorem nodup_foldl_requiredStep (keys : List P) (it : List (P × List P)) (acc 
 
 end required
 
+/-! ### documents -/
+
+section docs
+open NitroVerif.Gql
+
+theorem typeDefs_perm {items₁ items₂ : TsDoc} (h : items₁.Perm items₂) :
+    (Schema.mk items₁).typeDefs.Perm (Schema.mk items₂).typeDefs := h.filterMap _
+
+theorem directiveDefs_perm {items₁ items₂ : TsDoc} (h : items₁.Perm items₂) :
+    (Schema.mk items₁).directiveDefs.Perm (Schema.mk items₂).directiveDefs := h.filterMap _
+
+theorem declNamed_decls (items : TsDoc) (a : Name) :
+    declNamed (decls items) a = ((Schema.mk items).typeDef? a).map (declOf (Schema.mk items)) := by
+  unfold declNamed decls Schema.typeDef?
+  rw [List.find?_map]
+  rfl
+
+end docs
+
 end NitroVerif.Determinism
